@@ -18,7 +18,7 @@ tail -3 /tmp/seedv-$id-with.log
 echo "== existing tests with patch (demo excluded)"
 rce=0
 for p in $pkg "$@"; do
-  go test -overlay $OV -count=1 -vet=off -skip "^$tn\$" $p > /tmp/seedv-$id-ex.log 2>&1 || { rce=1; echo "FAIL in $p:"; grep -E "^(--- FAIL|FAIL|panic)" /tmp/seedv-$id-ex.log | head -10; }
+  go test -overlay $OV -count=1 -vet=off -skip "^($tn${SEED_SKIP:+|$SEED_SKIP})\$" $p > /tmp/seedv-$id-ex.log 2>&1 || { rce=1; echo "FAIL in $p:"; grep -E "^(--- FAIL|FAIL|panic)" /tmp/seedv-$id-ex.log | head -10; }
 done
 echo "== demo WITHOUT patch (expect PASS)"
 git apply -R SEED/patch.diff
